@@ -261,7 +261,10 @@ class Exec:
         if sv.ty == NONE: return BoolVal(False)
         if sv.ty == STR: return s.str_len(sv.t) != 0
         if sv.ty.kind == 'list': return sv._len_gt0
-        if sv.ty.kind == 'ref': return sv.t != 0
+        if sv.ty.kind == 'ref':
+            if sv.ty.arg in s.p.classes: return sv.t != 0
+            # an object of a class the unit does not know (typed 'object': a plain value such as a Decimal, a str, a bool): not None, and otherwise unknown
+            return And(sv.t != 0, Function('obj_truth', I, BoolSort())(sv.t))
         raise Unsupported(f'truth of {sv.ty}')
     def truth_st(s, st, sv):
         if getattr(sv, 'truth', None) is None and sv.ty.kind == 'list': return s.llen(st.heap, sv) > 0       # never the length at the time the value was bound
